@@ -1131,6 +1131,20 @@ Proof. intros poss yv. unfold ysel. rewrite concat_map. reflexivity. Qed.
 Lemma sum_map_length_concat' : forall {X} (l : list (list X)), sum (map (@length X) l) = length (concat l).
 Proof. intros X l. induction l as [|a r IH]; simpl; [reflexivity|]. rewrite app_length, IH. reflexivity. Qed.
 
+Lemma keys_eqb_same : forall l : list string, keys_eqb String.eqb l l = true.
+Proof. intros l. apply (keys_eqb_true String.eqb str_eqb_spec); auto. Qed.
+
+Ltac discharge_keys_check :=
+  match goal with
+  | |- (if negb ?c then None else _) = _ =>
+      let Ek := fresh "Ek" in
+      assert (Ek : c = true);
+      [ apply forallb_forall; let d1 := fresh "d1" in let Hd1 := fresh "Hd1" in
+        intros d1 Hd1; apply in_map_iff in Hd1; destruct Hd1 as [? [<- _]];
+        rewrite !map_map; cbn [fst]; apply keys_eqb_same
+      | rewrite Ek; cbn [negb] ]
+  end.
+
 Section CatRows.
   Variable mnt_cat : list (mnt payload) -> nat -> option (mnt payload).
   Variable met_cat : list (met payload) -> nat -> option (met payload).
@@ -1158,6 +1172,7 @@ Section CatRows.
               | FEmb _ => ts <- mapM as_emb l ;; option_map FEmb (met_cat ts 0)
               | FNested _ => ts <- mapM as_nested l ;; option_map FNested (mnt_cat ts 0)
               | FDict d0 => ds <- mapM as_dict l ;;
+                  if negb (forallb (fun d => keys_eqb String.eqb (map fst d) (map fst d0)) ds) then None else
                   option_map FDict
                     (mapM (fun kv => ts <- mapM (alookup String.eqb (fst kv)) ds ;;
                                      option_map (pair (fst kv)) (mnt_cat ts 0)) d0)
@@ -1203,7 +1218,7 @@ Section CatRows.
                   (fst kcm, mnt_of_cells (fst (snd kcm)) (snd (snd kcm))))
                   (map (fun kcm => (fst kcm, (fst (snd kcm), pick_rows pos (snd (snd kcm))))) d)))
         by (intros; reflexivity).
-      cbn [obind]. rewrite !map_map. cbn [fst snd].
+      cbn [obind]. discharge_keys_check. rewrite !map_map. cbn [fst snd].
       rewrite mapM_map. cbn [fst snd].
       erewrite (mapM_all_some _ (fun kcm : string * (nat * cellmat payload) =>
                   (fst kcm, mnt_of_cells (fst (snd kcm)) (pick_rows (concat poss) (snd (snd kcm)))))).
@@ -2005,6 +2020,7 @@ Section CatCols.
               | FEmb _ => ts <- mapM as_emb l ;; option_map FEmb (met_cat ts 1)
               | FNested _ => ts <- mapM as_nested l ;; option_map FNested (mnt_cat ts 1)
               | FDict d0 => ds <- mapM as_dict l ;;
+                  if negb (forallb (fun d => keys_eqb String.eqb (map fst d) (map fst d0)) ds) then None else
                   option_map FDict
                     (mapM (fun kv => ts <- mapM (alookup String.eqb (fst kv)) ds ;;
                                      option_map (pair (fst kv)) (mnt_cat ts 1)) d0)
@@ -2070,7 +2086,7 @@ Section CatCols.
                   (map (fun kcm : string * (nat * cellmat payload) =>
                           (fst kcm, (Nat.min (snd ab) (fst (snd kcm)) - fst ab, col_chunk (fst ab) (snd ab) (snd (snd kcm))))) d)))
         by (intros; reflexivity).
-      cbn [obind]. rewrite !map_map. cbn [fst snd]. rewrite mapM_map. cbn [fst snd].
+      cbn [obind]. discharge_keys_check. rewrite !map_map. cbn [fst snd]. rewrite mapM_map. cbn [fst snd].
       erewrite (mapM_all_some _ (fun kcm : string * (nat * cellmat payload) =>
                   (fst kcm, mnt_of_cells (fst (snd kcm)) (snd (snd kcm))))).
       + cbn [option_map]. reflexivity.
@@ -2485,3 +2501,53 @@ Section ColPartition.
       + apply (feat_eq_view_refl close close_refl n); [apply (Hv (s2, v)); exact Hinv|apply (Hcols s2 v Hinv)].
   Qed.
 End ColPartition.
+
+(* ------------------------------------------------------------------ *)
+(* __eq__ against the independent statement of equality on views *)
+Lemma tf_eq_iff_views_proof : forall close n n' vs vs' nm nm' yy yy' ov ov',
+  frame_wf n vs yy ov -> frame_wf n' vs' yy' ov' -> NoDup (map fst vs') ->
+  (tf_eq close (frame_of vs nm yy ov) (frame_of vs' nm' yy' ov') = Some true
+   <-> frames_equal close n vs nm yy n' vs' nm' yy').
+Proof.
+  intros close n n' vs vs' nm nm' yy yy' ov ov' Hw Hw' Hnd.
+  pose proof (num_rows_frame_of n vs nm yy ov Hw) as Hn. pose proof (num_rows_frame_of n' vs' nm' yy' ov' Hw') as Hn'.
+  destruct Hw as [Hv _], Hw' as [Hv' _]. rewrite Forall_forall in Hv, Hv'.
+  rewrite tf_eq_iff_proof. unfold tf_equiv, frames_equal. rewrite Hn, Hn'. cbn [frame_of y names feats]. split.
+  - intros [[k [E1 E2]] [Hy [Hnm Hf]]]. split; [congruence|]. split; [exact Hy|]. split; [exact Hnm|].
+    intros s v Hin. rewrite Forall_forall in Hf. specialize (Hf (s, feat_of_view v)). cbn [fst snd] in Hf.
+    destruct Hf as [xb [E Hfe]]; [apply in_map_iff; exists (s, v); auto|].
+    apply (alookup_In stype_eqb stype_eqb_spec) in E. apply in_map_iff in E. destruct E as [[s2 v'] [E Hin']].
+    injection E as <- <-. exists v'. split; [exact Hin'|].
+    apply (feat_eq_views_proof close n n' v v' (Hv _ Hin) (Hv' _ Hin')). exact Hfe.
+  - intros [En [Hy [Hnm Hf]]]. subst n'. split; [exists n; auto|]. split; [exact Hy|]. split; [exact Hnm|].
+    apply Forall_forall. intros [s x] Hin. cbn [fst snd]. apply in_map_iff in Hin. destruct Hin as [[s2 v] [E Hin]].
+    injection E as <- <-. destruct (Hf s2 v Hin) as [v' [Hin' Hc]]. exists (feat_of_view v'). split.
+    + pose proof (alookup_map_snd_st feat_of_view s2 vs') as Hm. cbn beta in Hm. rewrite Hm.
+      rewrite (In_alookup stype_eqb stype_eqb_spec s2 v' vs' Hnd Hin'). reflexivity.
+    + apply (feat_eq_views_proof close n n v v' (Hv _ Hin) (Hv' _ Hin')). exact Hc.
+Qed.
+
+(* ------------------------------------------------------------------ *)
+(* C07 + C08: the selected frame answers get_col_feat with the selected rows of that column *)
+Lemma vncols_vsel : forall pos v, vncols (vsel pos v) = vncols v.
+Proof. intros pos v. destruct v as [c k m|c m|ws m|d]; cbn [vsel vmap vncols]; try reflexivity. destruct d; reflexivity. Qed.
+
+Lemma vdict_ok_vsel : forall pos v, vdict_ok v -> vdict_ok (vsel pos v).
+Proof.
+  intros pos v Hd. destruct v as [c k m|c m|ws m|d]; cbn [vsel vmap vdict_ok vncols] in *; try exact I.
+  destruct Hd as [Hd1 Hd2]. split.
+  - rewrite map_map. cbn [fst]. rewrite (map_ext _ fst (fun _ => eq_refl)). exact Hd1.
+  - apply Forall_map. cbn [fst snd]. destruct d as [|kcm0 d']; [constructor|]. cbn [map fst snd]. exact Hd2.
+Qed.
+
+Lemma names_ok_sel : forall vs nm pos, names_ok vs nm -> names_ok (map (fun sv => (fst sv, vsel pos (snd sv))) vs) nm.
+Proof.
+  intros vs nm pos [H1 [H2 [H3 [H4 H5]]]].
+  assert (Ek : map fst (map (fun sv : stype * fview => (fst sv, vsel pos (snd sv))) vs) = map fst vs).
+  { rewrite map_map. cbn [fst]. apply map_ext. reflexivity. }
+  split; [rewrite Ek; exact H1|]. split; [exact H2|]. split; [rewrite map_length; exact H3|].
+  split; [rewrite Ek; exact H4|].
+  intros s v' Hin. apply in_map_iff in Hin. destruct Hin as [[s2 v] [E Hin]]. injection E as <- <-.
+  destruct (H5 s2 v Hin) as [Hd [cn [E [Hl Hne]]]]. split; [apply vdict_ok_vsel; exact Hd|].
+  exists cn. rewrite vncols_vsel. auto.
+Qed.
